@@ -213,9 +213,11 @@ unsafe fn check_tail(p: *mut u8, size: usize) {
     }
 }
 /// after every step: the tail guards of the live library blocks are intact (no write past the
-/// capacity) and no element-sized slot of a block consists of guard bytes or of released-memory
-/// poison (an over-read past the capacity, or a read through a stale pointer, copied into the block)
-pub fn scan_heap(elem: usize) {
+/// capacity) and no element-sized slot of a *vector's storage block* (`storage`: the storage pointers of the live
+/// vectors) consists of guard bytes or of released-memory poison (an over-read past the capacity, or a read through a
+/// stale pointer, copied into the block). Other blocks allocated inside a library call - the payload of a panic - hold
+/// arbitrary bytes (addresses) and are only checked for writes past their end.
+pub fn scan_heap(elem: usize, storage: &[usize]) {
     let t = unsafe { &*SH.live.get() };
     for i in 0..LIVECAP {
         let (p, size, _) = t[i];
@@ -223,7 +225,7 @@ pub fn scan_heap(elem: usize) {
         let b = p as *mut u8;
         unsafe {
             check_tail(b, size);
-            if elem < 2 { continue; }
+            if elem < 2 || !storage.contains(&p) { continue; }
             let mut k = 0;
             let lim = size.min(1 << 16);
             while k + elem <= lim {
